@@ -229,17 +229,18 @@ func c44NewWorld(t testing.TB, c *mc.Check, cfg c44Cfg, need map[int]bool) *c44W
 
 func (w *c44World) close() { w.net.close() }
 
-// run lets the network settle loss-free, ticking the handshake timers of the given node.
+// run lets the network settle loss-free, ticking the handshake timers of the given node every 100 ms of virtual time,
+// until that node has no pending handshake left (or the round budget is spent: handshakes that must fail keep retrying).
 func (w *c44World) run(ticker *vnode, rounds int) {
 	w.net.collect()
 	for r := 0; r < rounds; r++ {
 		w.net.flushFIFO(100)
+		if len(ticker.pendingAddrs()) == 0 {
+			break
+		}
 		vtime.Advance(100 * vtime.Millisecond)
 		ticker.hsTick()
 		w.net.collect()
-		if len(w.net.inflight) == 0 {
-			break
-		}
 	}
 	w.net.flushFIFO(100)
 	w.net.inflight = nil
@@ -260,13 +261,13 @@ func (w *c44World) apply(e c44Ev) {
 		p := w.peers[e.Peer]
 		p.f.SendMessageToVpnAddr(header.Test, header.TestRequest, w.lhAddrFor(p), []byte("c44"), nb, out)
 		p.settle()
-		w.run(p, 3)
+		w.run(p, 4)
 	case "hsOut":
 		p := w.peers[e.Peer]
 		w.lh.injectLighthouseAddr(p.vpnIP, p.udp)
 		w.lh.f.SendMessageToVpnAddr(header.Test, header.TestRequest, p.vpnIP, []byte("c44"), nb, out)
 		w.lh.settle()
-		w.run(w.lh, 3)
+		w.run(w.lh, 8)
 	case "hsLost":
 		p := w.peers[e.Peer]
 		w.lh.injectLighthouseAddr(p.vpnIP, p.udp)
@@ -849,7 +850,7 @@ func TestVerifC44(t *testing.T) {
 					req.Question = append(req.Question, dns.Question{Name: x.Name, Qtype: x.Type, Qclass: dns.ClassINET})
 				}
 				w3.lh.f.dnsServer.handleDnsRequest(rw, req)
-				fmt.Println("INFO c44 resp:", strings.ReplaceAll(rw.msgs[0].String(), "\n", "\nINFO   "))
+				fmt.Println("INFO c44 resp:", strings.ReplaceAll(rw.msgs[0].String(), "\n", " | "))
 			}
 			w3.close()
 		}
